@@ -86,6 +86,7 @@ def value_cases(ctx):
     add("corpus:D8-last-chunk-placeholder", 9, [[2] * 7 + [4, 0]], mn=1, op=4, id_prob=0)
     add("corpus:D8-opt1", 4, [[2, 2, 4, 0]], mn=1, op=1)
     add("corpus:D8-opt1", 5, [[0, 4, 2, 2, 2]], mn=1, op=1)
+    add("corpus:D8-two-placeholders-chunk", 5, [[2, 4, 0, 0, 4]], mn=1, op=2)
     add("corpus:D8-two-placeholders-chunk", 6, [[2, 4, 0, 0, 4, 2]], mn=1, op=2)
     add("corpus:D8-two-placeholders-chunk", 6, [[2, 4, 0, 0, 4, 2]], mn=2, op=2)
     add("corpus:straddle-4|4|1", 9, [[2, 2, 2, 4, 0, 2, 2, 2, 2], [2] * 7 + [0, 4]], mn=1, op=4)
@@ -394,6 +395,8 @@ def main(ctx):
         for b in case.get("backends", LAYER_BACKENDS):
             if b == "standard" and n > (11 if ctx.thorough else 10):
                 continue
+            if b == "standard" and n >= 9 and len(codes) >= 2 and all(x != 0 for c in codes for x in c):
+                continue                       # (object-dtype matrix products of defect D7 would take minutes here)
             im, raw, untouched = L.run_layers(b, case)
             ctx.count()
             if "err" in im:
@@ -456,6 +459,8 @@ def main(ctx):
             if not in_domain(b, n, case["min"], case["opt"], codes, 2 ** n):
                 continue
             r1, v1, _ = L.run_layers(b, case)
+            if r1.get("kind") == "object":
+                continue                       # already reported by the exact stream; object arithmetic is very slow
             r2, v2, _ = L.run_layers(b, case, psi=phi.copy())
             r3, v3, _ = L.run_layers(b, case, psi=a * case["psi"] + bb * phi)
             ctx.count(3)
